@@ -162,6 +162,8 @@ EQUIVALENT = {
     "table_threshold_40": "C11's own statement: which checking code is generated must not change the answer",
     "compiled_flag_early": "the failure handler resets the flag anyway",
     "publish_primary_first": "for C19 only: under the resolution lock a reader that hits the main entry early blocks until the continuation entries exist (C18 catches it with injected faults)",
+    "ensure_compiled_unlocked": "compile() itself takes the lock; what remains is a redundant second build, harmless since F27 / F44 (entry point and call sites switch to a complete table in one step)",
+    "ensure_compiled_no_recheck": "a redundant second build under the lock, harmless since F27 / F44",
     "compile_unlocked": "ensure_compiled still holds the lock around it for first calls; concurrent register() is outside C19's statement",
 }
 
